@@ -105,7 +105,20 @@ def engine_result(engine, t, data_sources=None):
     r = engine.match(txn_dict(t), data_sources=data_sources)
     return {"matched": bool(r.matched), "merchant": r.merchant, "category": r.category, "subcategory": r.subcategory,
             "tags": sorted(r.tags), "rule": r.matched_rule.name if r.matched_rule else None,
-            "extra": dict(r.extra_fields or {})}
+            "extra": {k: _plain(v) for k, v in (r.extra_fields or {}).items()}}
+
+
+def _plain(v):
+    """Make an extra-field value comparable / picklable (generator objects are consumed)."""
+    import types
+    if isinstance(v, types.GeneratorType):
+        try:
+            return ["<generator>"] + [_plain(x) for x in v]
+        except Exception as e:  # noqa
+            return ["<generator>", f"raises {type(e).__name__}"]
+    if isinstance(v, list):
+        return [_plain(x) for x in v]
+    return v
 
 
 def load_path(path, mode="first_match"):
@@ -123,7 +136,7 @@ def normalize_result(rules, transforms, t, data_sources=None):
                                        field=dict(t["field"]) if t["field"] is not None else None,
                                        data_source=t["source"], transforms=transforms, data_sources=data_sources)
     return {"merchant": m, "category": c, "subcategory": s, "tags": sorted(set((info or {}).get("tags", []))),
-            "pattern": (info or {}).get("pattern"), "extra": dict((info or {}).get("extra_fields") or {})}
+            "pattern": (info or {}).get("pattern"), "extra": {k: _plain(v) for k, v in ((info or {}).get("extra_fields") or {}).items()}}
 
 
 # ----------------------------------------------------------------------------------------------
